@@ -289,8 +289,10 @@ func (c05) Run(t *testing.T, scenario any, job *Job, res *Result) {
 		}
 		an := strings.TrimRight(string(a.Name), "/")
 		for _, b := range sc.Entries {
-			if strings.HasPrefix(string(b.Name), an+"/") && strings.TrimRight(string(b.Name), "/") != an {
-				res.Invalid = "an entry below a fifo of the same list"
+			bn := strings.TrimRight(string(b.Name), "/")
+			if (strings.HasPrefix(string(b.Name), an+"/") && bn != an) || (bn == an && b.Type != "fifo") {
+				// (a regular file of the same name is opened as its own basis)
+				res.Invalid = "an entry below, or under the same name as, a fifo of the same list"
 				return
 			}
 		}
